@@ -264,27 +264,45 @@ class C03(Prop):
                   "unconditionally to the FrameStream model over EVERY transport script (any chunking, Pending anywhere, "
                   "FIN/RESET/open) by a simulation proved from the C02 invariant (C03_lifted_to_chunks_closed); for FIN on a "
                   "frame boundary and for still-open streams the outcome is a function of the wire bytes alone "
-                  "(C03_chunked_outcome_fin/_open)")
+                  "(C03_chunked_outcome_fin/_open); the header hypothesis is POSITIONAL (HdrsOk: first HEADERS block an acceptable head, "
+                  "second an acceptable trailer section — satisfiable by a faithful oracle; non-vacuity with the driver's own oracle, "
+                  "messages with trailers); RE-POLLING: with every call polled again while it answers Pending, for every frame sequence "
+                  "(valid or not), every ending, every cutting and every schedule (pend events anywhere in the transport script) the "
+                  "trace is that of the frame-level model on a frame sequence tied to the bytes (C03_polled_lifted_closed), and for FIN "
+                  "(on a boundary or inside a frame header / non-DATA payload) and still-open streams the outcome is the recogniser's "
+                  "verdict on the bytes alone (C03_polled_outcome_fin/_open); split() anywhere leaves the digest unchanged "
+                  "(C03_split_preserves_outcome)")
     level_note = ("trusted: Lean kernel + 3 standard axioms; hand model tied to the code by running real h3::server / h3::client "
                   "objects over SimQuic on the same scenario lines as the composed Lean model (request layer over the FrameStream "
                   "model); QPACK/header validation is an oracle on the five header blocks the generator uses (C11/C12); the "
                   "connection driver is modelled as 'an active accept loop / wait_idle closes with the code in the cell' (C05); "
-                  "C03_lifted_to_chunks_closed has no simulation hypothesis left (side conditions: non-empty chunks, no 0x41 frame header in the bytes, header blocks acceptable to the header oracle)")
+                  "C03_lifted_to_chunks_closed / C03_polled_lifted_closed have no simulation hypothesis left (side conditions: non-empty chunks, "
+                  "no 0x41 frame header in the bytes — that case is specified (R-03b) and compared on the real code, not covered by the chunk-level "
+                  "theorems —, header blocks acceptable to the header oracle in their positions); a schedule is a transport script with pend events "
+                  "(a pend = a poll that finds nothing new, C03_pend_is_empty_poll); for FIN inside a DATA payload and for RESET the number of payload "
+                  "bytes handed out before the error depends on the schedule, so there the claim is the prefix version (TiedS)")
     rule = ("cases: `req` scenario lines; every sequence of length <= 5 (thorough: plus every length-6 sequence whose first five "
             "letters do not already end the reading) over the 11-letter alphabet {HEADERS, DATA(0), DATA(n), unknown(0), "
             "unknown(n), CANCEL_PUSH, SETTINGS, GOAWAY, MAX_PUSH_ID, PUSH_PROMISE, H2-reserved} x endings {FIN, RESET, open} x "
             "{server, client}, documented call pattern (head, recv_data until end, recv_trailers; stop at an error); chunking "
             "rotates whole/per frame/per byte/random in quick, all four in thorough for length <= 4; plus truncations at every "
             "offset, malformed/bad-SETTINGS/bad-header frames, endings and chunks arriving between the calls, raw recv_data "
-            "call sequences incl. calls after the end; non-trivial = at least one API call of the stream completed")
+            "call sequences incl. calls after the end (with split() inserted anywhere in a third of them); frame type 0x41 (WEBTRANSPORT_STREAM) "
+            "as first frame / in body position / after the trailers, complete or cut short, wt=0 and wt=1, both roles, every ending, four "
+            "chunkings; split(): part of the body read on the whole stream (one piece per recv_data), split at EVERY position of a DATA "
+            "frame whose payload arrives in several chunks (payloads that look like frames / are all zero included), between two DATA "
+            "frames, between the end of the body and the trailers, calls posted before or after the bytes; non-trivial = at least one API "
+            "call of the stream completed")
     trusted = ["SimQuic + scripted executor (harness/src/sim.rs, exec.rs, scen.rs)",
                "http / qpack decoding of the five fixed header blocks (oracle in lean/H3/Drv/C03.lean)",
                "translator decision tables H3.Gen.ReqArms (arms of RequestStream::poll_recv_data / poll_recv_trailers per variant of enum Frame, incl. the catch-all arms), H3.Gen.FirstFrame (server accept_with_frame, client recv_response) and H3.Gen.FrameErrCodes (got_frame_error, handle_frame_stream_error_on_request_stream), re-read from h3/src/connection.rs, h3/src/server/request.rs, h3/src/client/stream.rs, h3/src/error/*.rs on this run (any other shape is refused); tied to the model by H3.Lemmas.GenAgreeReq (pollRecvData_frame, trailersFirst_frame, trailersCheck_frame, pollHead_frame and their _fin/_err/_pending companions: on every answer of the frame layer the model step does what the generated arm says), rebuilt on this run"]
     assumptions = ["documented call pattern: resolve_request/recv_response, recv_data until None, recv_trailers; no call after an error",
-                   "every HEADERS block decodes to a well-formed message (C11/C12 decide that)",
+                   "the FIRST HEADERS block of a stream decodes to a well-formed message head, the SECOND to a well-formed trailer section (C11/C12 decide that; nothing is assumed about a block in the other position)",
                    "for RESET the frames delivered before the reset is noticed are a prefix of the frames sent (C02, App. B.1)",
                    "C03_lifted_to_chunks: the frame layer simulates the token source (hypothesis `Sim`, the C02 facts)",
-                   "client-side FIN before HEADERS and PUSH_PROMISE to a client are left open by the property (R-03)"]
+                   "client-side FIN before HEADERS and PUSH_PROMISE to a client are not fixed by the property text (R-03): the oracle lists the alternatives the RFC allows (a failing call: H3_FRAME_UNEXPECTED or a stream-level error; H3_FRAME_UNEXPECTED or H3_ID_ERROR), never 'anything'",
+                   "frame type 0x41 on a stream read through the request API is a defined frame out of place (R-03b): H3_FRAME_UNEXPECTED or H3_FRAME_ERROR, never skipped",
+                   "re-polling theorems: a schedule of deliveries and polls is a transport script with pend events anywhere (the FrameStream model's own notion of a schedule)"]
 
     _codes_cache = None
 
